@@ -190,15 +190,6 @@ theorem sse_select_ps (a b mask : Vector α 4) :
     esl_sse_select_ps O a b mask = select O.zero (fun z => O.msb (lane mask O.zero z)) a b := by
   apply ext_lane O.zero; unfold esl_sse_select_ps select; all_lanes
 
-/-! ### horizontal float reductions: the fixed association of the shuffles; and, for an associative commutative operation,
-    the left-to-right scalar loop -/
-theorem sse_hsum_ps_tree (a : Vector α 4) : esl_sse_hsum_ps O a = O.add (O.add a[0] a[1]) (O.add a[2] a[3]) := by
-  unfold esl_sse_hsum_ps; simd_unfold; simp (disch := omega) only [lane_eq]
-theorem sse_hmax_ps_tree (a : Vector α 4) : esl_sse_hmax_ps O a = O.max (O.max a[0] a[1]) (O.max a[2] a[3]) := by
-  unfold esl_sse_hmax_ps; simd_unfold; simp (disch := omega) only [lane_eq]
-theorem sse_hmin_ps_tree (a : Vector α 4) : esl_sse_hmin_ps O a = O.min (O.min a[0] a[1]) (O.min a[2] a[3]) := by
-  unfold esl_sse_hmin_ps; simd_unfold; simp (disch := omega) only [lane_eq]
-
 end floats
 
 section ac
